@@ -1,6 +1,7 @@
 (* C09 — the structured report partitions the rules exactly as they were evaluated. Pinned statements only. *)
 From GV.Model Require Import Report.
-From GV.Proofs Require Import StatusProps ReportProps.
+From GV.Proofs Require Import StatusProps ReportProps TableProps.
+From GV.Generated Require Import EvalTables.
 
 (* distinct rule names: every evaluated rule is in exactly one of compliant (PASS), not_applicable (SKIP),
    not_compliant (FAIL) *)
@@ -62,3 +63,10 @@ Theorem C09_rule_report_by_status : forall n s msg ch,
   (s = FAIL -> report_rec (Rec (KRuleCheck n s msg) ch) = [RRule n msg (report_failed ch)]).
 Proof. exact rule_report_by_status. Qed.
 Print Assumptions C09_rule_report_by_status.
+
+(* FileReport::combine folds the statuses with Status::and: the model's status_and is the truth table obtained by interpreting the
+   match arms of the Rust source (regenerated on every run) *)
+Theorem C09_status_and_is_the_source_table : forall a b,
+  lookup3 (status_name a) (status_name b) src_status_and = Some (status_name (status_and a b)).
+Proof. exact status_and_is_the_source_table. Qed.
+Print Assumptions C09_status_and_is_the_source_table.
